@@ -33,13 +33,18 @@ class C11(SessionCheck):
         for i in range(1 if tier == 'quick' else 4):
             # a large backlog of untaken notifications, then requests: the queue must not push back on the session thread
             out.append({'kind': 'e2e', 'sc': {'transport': 'unix', 'profile': ['default', 'junos'][i % 2], 'threads': 1, 'per_thread': 2, 'window': 1,
-                                              'notifs': 0, 'burst': 1500 if tier == 'quick' else 1500 * 4 ** i, 'seg': 'whole', 'timeout': 4,
+                                              'notifs': 0, 'burst': 1500 if tier == 'quick' else 1500 * 4 ** i, 'seg': 'whole', 'timeout': 4, 'slow_first_callback': 0.4,
+                                              'seed': rng.randrange(1 << 30)}})
+            # the same with MANY SMALL notifications over SSH (the channel buffers what the slow listener has not let the session read yet):
+            # thousands of complete messages in one transport read
+            out.append({'kind': 'e2e', 'sc': {'transport': 'ssh', 'profile': 'default', 'threads': 1, 'per_thread': 2, 'window': 1,
+                                              'notifs': 0, 'burst': 6000 if tier == 'quick' else 20000, 'tiny': True, 'seg': 'whole', 'timeout': 6, 'slow_first_callback': 0.5,
                                               'seed': rng.randrange(1 << 30)}})
         for i in range(1 if tier == 'quick' else 4):
             # notifications of very different sizes right behind one another, on a machine where building the object for a large one
             # takes a while: arrival order is the order in which they are taken
             out.append({'kind': 'e2e', 'sc': {'transport': ['unix', 'ssh', 'tls'][i % 3], 'profile': ['default', 'junos'][i % 2], 'threads': 1, 'per_thread': 1, 'window': 1,
-                                              'notifs': 0, 'burst': 9 + 4 * i, 'mixed_sizes': True, 'slow_construct': True, 'seg': 'whole', 'timeout': 6,
+                                              'notifs': 0, 'burst': 9 + 4 * i, 'mixed_sizes': True, 'slow_construct': True, 'resubscribe': i % 2 == 0, 'seg': 'whole', 'timeout': 6,
                                               'seed': rng.randrange(1 << 30)}})
         return out
 
@@ -48,7 +53,9 @@ class C11(SessionCheck):
             sc = case['sc']
             if io.get('connect') != 'ok':
                 return ('C11:e2e-connect', 'connect failed: %s' % io.get('connect'))
-            from impl.e2e import notif_text
+            from impl.e2e import notif_text, tiny_notif_text
+            if sc.get('tiny'):
+                notif_text = tiny_notif_text
             # in the order in which the server put them on the wire (several may be placed into one batch in any order)
             want = io.get('notifs_emitted')
             strip_detail = lambda t: re.sub(r'<detail>.*</detail>', '', t, flags=re.S)
